@@ -715,28 +715,61 @@ GENERATORS = [("ContingentProblem", gen_contingent), ("MultiAgentProblem", gen_m
               ("SchedulingProblem", gen_sched)]
 
 
+def repaired_positions():
+    """the two positions repaired in /repo (fix c453608, fix c7cadef): a subtype that only a task parameter, a method
+    parameter and a task-network variable mention; decision variables of the base chronicle of a scheduling problem"""
+    from unified_planning.shortcuts import (UserType, Fluent, BoolType, IntType, InstantaneousAction, Or, LT)
+    from unified_planning.model.htn import HierarchicalProblem, Method
+    from unified_planning.model.scheduling import SchedulingProblem
+    out = []
+    p = HierarchicalProblem("c10cls_hier_param_types")
+    sup = UserType("c10cls_Sup")
+    sub = UserType("c10cls_Sub", sup)
+    f = Fluent("f", BoolType(), x=sup)
+    p.add_fluent(f, default_initial_value=False)
+    p.add_object("o", sup)
+    a = InstantaneousAction("a", x=sup)
+    a.add_effect(f(a.x), True)
+    p.add_action(a)
+    t = p.add_task("t", x=sub)
+    m = Method("m", x=sub)
+    m.set_task(t, m.x)
+    m.add_subtask(a, m.x)
+    p.add_method(m)
+    v = p.task_network.add_variable("v", sub)
+    p.task_network.add_subtask(t, v)
+    out.append(("repaired:hierarchical:subtype-only-in-task-method-parameters-and-network-variable", p))
+    s = SchedulingProblem("c10cls_sched_base_variables")
+    w = s.add_variable("w", IntType(0, 3))
+    b = s.add_variable("b", BoolType())
+    s.add_variable("v", sub)
+    s.add_constraint(Or(b, LT(w, 2)))
+    out.append(("repaired:scheduling:base-decision-variables", s))
+    return out
+
+
 # ======================================================================================================== the check
 def batch_details(ctx, cases, names):
-    """for each failing case: (proved-specification features missing from problem.kind, model-only features,
-    implementation-only features) as names; one Coq file for all of them"""
+    """for each case: (proved-specification features missing from problem.kind, model-only features,
+    implementation-only features, full-specification features missing from problem.kind) as names; one Coq file for all"""
     if not cases:
         return []
     body = ""
     for j, c in enumerate(cases):
         body += ("Definition c%d := %s.\nEval vm_compute in (missing c%d).\nEval vm_compute in (fst (model_diff c%d)).\n"
-                 "Eval vm_compute in (snd (model_diff c%d)).\n" % (j, c, j, j, j))
+                 "Eval vm_compute in (snd (model_diff c%d)).\nEval vm_compute in (known_missing c%d).\n" % (j, c, j, j, j, j))
     try:
         out = ctx.coq_run(body, IMPORTS, name="c10cls_details")
     except CoqError:
-        return [(["?"], ["?"], ["?"])] * len(cases)
+        return [(["?"], ["?"], ["?"], ["?"])] * len(cases)
     chunks = re.split(r"^\s*=", out, flags=re.M)[1:]
     lists = []
     for ch in chunks:
         ch = ch.split(": list", 1)[0]
         lists.append([names[int(x)] if int(x) < len(names) else "feature#" + x for x in re.findall(r"\d+", ch)])
-    if len(lists) != 3 * len(cases):
-        return [(["?"], ["?"], ["?"])] * len(cases)
-    return [tuple(lists[3 * j:3 * j + 3]) for j in range(len(cases))]
+    if len(lists) != 4 * len(cases):
+        return [(["?"], ["?"], ["?"], ["?"])] * len(cases)
+    return [tuple(lists[4 * j:4 * j + 4]) for j in range(len(cases))]
 
 
 def run(ctx):
@@ -763,6 +796,8 @@ def run(ctx):
     for label, _tags, pb in c10_gen.other_classes_corpus():
         if type(pb).__name__ in CLASSES:
             problems.append((label, "other-classes-corpus", pb))
+    for label, pb in repaired_positions():
+        problems.append((label, "repaired-positions", pb))
     per_class = 30 if ctx.quick else 150
     for klass, gen in GENERATORS:
         for i in range(per_class):
@@ -787,14 +822,38 @@ def run(ctx):
     t_ser = time.time() - t0 - t_make - t_gen
 
     # one pass for both numbers (library loading dominates a coqc run): ccode c < 16, so  ccode c + 16 * n_known c
-    both = ctx.coq_codes(cases, "fun c => (ccode c + 16 * n_known c)%N", imports=IMPORTS, shard=50, label="c10cls")
+    both = ctx.coq_codes(cases, "packed", imports=IMPORTS, shard=50, label="c10cls")
     codes = [v % 16 for v in both]
-    nk = [v // 16 for v in both]        # number of known-finding features per case: for the evidence only, never reported
+    nk = [(v // 16) % 256 for v in both]   # features of the FULL specification missing from problem.kind (beyond the proved one)
+    nout = [v // 4096 for v in both]       # ... of which NOT among the recorded ma_missed
     t_coq = time.time() - t0 - t_make - t_gen - t_ser
 
     names = all_feature_names()
     bad = [i for i, code in enumerate(codes) if code != 0]
-    details = batch_details(ctx, [cases[i] for i in bad], names)
+    look = [i for i in range(len(cases)) if codes[i] != 0 or nk[i] > 0]
+    all_details = dict(zip(look, batch_details(ctx, [cases[i] for i in look], names)))
+    # the full statement fails on the implementation (positions the class's kind never reads): a failing input of the
+    # property.  Open finding C10-ma-kind-misses-common-features = MultiAgentProblem + every missed feature is one of the
+    # recorded 23 (Model/KindOfClasses.v ma_missed); anything else does not get the tag and is a VIOLATION.
+    n_known_reported = 0
+    for i in look:
+        if nk[i] == 0:
+            continue
+        info = infos[i]
+        label, klass = info["label"], info["class"]
+        if klass != "MultiAgentProblem" and codes[i] & 2:
+            continue        # full = proved specification for the other classes: reported below (bit 2)
+        full_miss = all_details[i][3]
+        recorded = klass == "MultiAgentProblem" and nout[i] == 0
+        tags = ["c10", "classes", "multi-agent" if klass == "MultiAgentProblem" else "class:" + klass,
+                "kind-misses-common-feature" if recorded else "kind-misses-unrecorded-feature"] + ["feature:" + m for m in full_miss]
+        ctx.fail("oracle", "%s: %s uses %s but problem.kind does not report it (oracle:C10_classes:full_spec)" % (
+            label, klass, ", ".join(full_miss)), tags,
+            {"problem": label, "class": klass, "implementation_kind": info["kind"],
+             "used_but_missing_from_problem_kind": full_miss, "outside_recorded_features": nout[i],
+             "case": cases[i][:6000]}, True)
+        n_known_reported += 1
+    details = [all_details[i][:3] for i in bad]
     for i, (miss, only_model, only_impl) in zip(bad, details):
         code, info = codes[i], infos[i]
         label, klass = info["label"], info["class"]
@@ -842,6 +901,7 @@ def run(ctx):
         "generator_errors": len(gen_errors),
         "generator_error_samples": gen_errors[:5],
         "cases_with_known_finding_features": known,
+        "cases_reported_full_spec_missing": n_known_reported,
         "mismatches": len(bad),
         "seconds": {"make": round(t_make, 1), "generate": round(t_gen, 1), "serialise": round(t_ser, 1),
                     "coq": round(t_coq, 1)},
